@@ -1,0 +1,9 @@
+//go:build verif
+
+package document
+
+import bo "github.com/benoitkugler/webrender/html/boxes"
+
+// VerifPageBox gives the external verification harness (/verif) read access
+// to the laid out page box behind a Page. Compiled only with the build tag `verif`.
+func (d Page) VerifPageBox() *bo.PageBox { return d.pageBox }
